@@ -71,6 +71,22 @@ CHECKS = {
    text="Zero-window lemmas from arbitrary valid states: with rmt_wnd=0 a flush admits and drops nothing, arms the probe timer in [500 ms,120 s], sends WASK whenever it expired and backs off monotonically; a WASK (or a reader freeing a full queue) yields a WINS with the true free space; any regular segment with wnd>0 reopens the sender and queued data is admitted. Bounded symbolic model checking.",
    note="Trusted: gse, solvers, INV_KCP.",
    design="§4 C03"),
+ "C12": dict(
+   text="Relational (2-safety) check on the real core: the same arbitrary valid state is built twice, the second copy shifted by three fully symbolic 32-bit offsets (own sequence numbers, peer's sequence numbers, all live timestamps and the clock); the same call (Input of an arbitrary segment, flush, Check, Update, Recv, Send) with correspondingly shifted arguments must give equal results, post-states related by the same shifts and emitted datagrams equal after shifting their sn/una/ts fields — one solver query per assertion covers all 2^96 offset combinations, in particular those placing 2^31/2^32 inside the step. The two-endpoint scenarios additionally run with symbolic origins. Bounded symbolic model checking; induction over steps is the written argument.",
+   note="Trusted: gse, solvers, INV_KCP, the liveness case split. Small shape families in the quick tier (relational queries are expensive).",
+   design="§4 C12"),
+ "C13": dict(
+   text="The real Read/Write/AcceptKCP are run as goroutines of a cooperative scheduler inside the symbolic executor, blocked on the real channels/timers of a real session or listener over stub sockets; a symbolic-choice event sequence (data, ACK, new peer, deadline set/cleared/past, Close, socket error) is applied, each event followed by run-to-quiescence in virtual time, and wake-up obligations are asserted at every quiescent point. Schedules within a delay bound and event sequences are enumerated decisions of the executor; the solver decides data- and time-dependent branches. Two defects found this way were repaired, three residual ones are known findings.",
+   note="Trusted: the scheduler and timer model of gse (context switches at synchronisation operations only), the delay bound. Counterexamples are confirmed by re-execution inside gse, not natively.",
+   design="§4 C13", tech="bounded symbolic execution of the go/ssa form of /repo with a cooperative goroutine scheduler (delay-bounded schedule enumeration, virtual time) and SMT queries (z3) for data/time-dependent branches"),
+ "C15": dict(
+   text="Ownership: a ghost pool gives every acquisition an identity and every harness of every property reports a second Put or any access to a recycled buffer on every explored path; dedicated steps drive the FEC decoder's recycle paths. Release: client session, listener and accepted session over stub sockets with the real TimedSched are closed in symbolic order in goroutine mode; at quiescence no library goroutine and no update callback is left. Bounded symbolic model checking (ownership) and delay-bounded schedule exploration (release).",
+   note="Trusted: gse's pool model and scheduler model. The real sync.Pool and GC are outside.",
+   design="§4 C15", tech="bounded symbolic execution of the go/ssa form of /repo with ghost buffer ownership; goroutine release under a cooperative delay-bounded scheduler in virtual time"),
+ "C17": dict(
+   text="The real NewTimedSched/prepend/sched/Put run under the executor's cooperative scheduler with a timer model implementing both Go timer-channel semantics. With symbolic deadlines the solver case-splits every ordering the code and the timer model can observe (past, now, equal, increasing, decreasing, beyond the horizon) — 10^4 (order type, schedule) paths for 3 tasks; deeper schedule bounds run with enumerated deadlines, 1-2 workers, 1-2 submitters. Asserted at quiescence after 50 ms of virtual time: never early, at most once, every due task ran, far-future tasks do not delay nearer ones, Close stops every goroutine. Bounded symbolic execution with delay-bounded schedule enumeration.",
+   note="Trusted: the scheduler and timer model of gse. Real-time latency outside.",
+   design="§4 C17", tech="bounded symbolic execution of the go/ssa form of /repo with a cooperative goroutine scheduler and timer model; SMT (z3) case-splits the symbolic deadlines; schedules enumerated within a delay bound"),
 }
 
 NOT_APPLICABLE = {}
